@@ -362,7 +362,15 @@ def cexStrong (left right : Program) (fwd bwd : Bool) (ps : List Problem) (seed 
         ({ H0 with preds := H'.preds }, r3)
       else (H0, r2)
     let eval := fun (H T : FinInterp) =>
-      let J := mergedInterp H T
+      let J0 := mergedInterp H T
+      -- propositional h-/t-copies that clash with a symbolic constant are renamed `<copy>_p…` in the problems
+      let syms := ext left.symbols right.symbols
+      let probPreds := ps.foldl (fun acc p => ext acc (p.preds.filter (·.arity = 0))) []
+      let extra := probPreds.filterMap fun q =>
+        if J0.preds.any (fun e => e.1 == q.symbol && e.2.1 == 0) then none else
+        (J0.preds.find? fun e => e.2.1 == 0 && syms.contains e.1 && q.symbol.startsWith (e.1 ++ "_p")).map
+          fun e => (q.symbol, 0, e.2.2)
+      let J := { J0 with preds := J0.preds ++ extra }
       let refuted := ps.any (refutedB J)
       match progB H T true left, progB H T true right with
       | some l, some rr =>
